@@ -687,6 +687,7 @@ class RequestHandler:
             ("domain", domain),
             ("path", path),
             ("samesite", samesite),
+            ("max_age", max_age),
             *kwargs.items(),
         ]:
             # Cookie attributes may not contain control characters or semicolons (except when
